@@ -23,7 +23,7 @@ PROPERTY = 'C18'
 RULE = ('Hypothesis-generated programs (all features) plus the example corpus. (i) reproducibility: every program is '
         'compiled twice in process and in 6 fresh subprocesses with PYTHONHASHSEED in {0,1,12345,random} and, with further seeds, under python -O and -OO; all outputs must '
         'be byte-identical (or the same diagnostic). (ii) stack-size monotonicity: a run that does not overflow at S must '
-        'behave identically at S_min, S_min+1, 2*S_min, 400, 4000 and the largest stack the word size allows; the small dynamic-array and write-site programs of the C04 grids are additionally run at every stack size from the first that does not overflow to six above it and compared with 400 words. (iii) word-size '
+        'behave identically at S_min, S_min+1, 2*S_min, 400, 4000 and the largest stack the word size allows (at 16 bit also 1, 4, 9 and 14 words below it); the small dynamic-array and write-site programs of the C04 grids are additionally run at every stack size from the first that does not overflow to six above it and compared with 400 words. (iii) word-size '
         'monotonicity: if the reference interpreter at word size w reports no wrap-around, the VM events at every wider '
         'w\' in {2,3,4,8} equal those at w; a grid of small dynamic-array programs is additionally run at every word size from 2 to 8 '
         'bytes (also the odd ones). (iv) lint: compiling with unreachable_error=True either raises '
@@ -163,7 +163,9 @@ def check_cfg(stats, case, sub):
         if base.overflowed:
             raise Discard('overflows at S0')
         smin = find_smin(src, args, ws)
-        sizes = sorted({smin, smin + 1, 2 * smin + 1, S0, 10 * S0, min(max_stack(ws), 20000)})
+        top = min(max_stack(ws), 20000)
+        # near the largest stack the 16-bit target allows the globals behind the stack sit around address 0x8000
+        sizes = sorted({smin, smin + 1, 2 * smin + 1, S0, 10 * S0, top} | ({top - 1, top - 4, top - 9, top - 14} if ws == 2 else set()))
         for S in sizes:
             r = run_lines(compile_lines(src, ws, S, False), args, budget=1_000_000)
             stats.evaluated()
